@@ -134,6 +134,24 @@ func altShapes(g *gram.Grammar) map[string]int {
 
 var switchRe = []byte("switch buffer[position]")
 
+// scoreBy builds an input-ranking function from a predicate over the reference result.
+func scoreBy(f func(r *refpeg.Result, in []rune) int) func(g *gram.Grammar, entry int, input []rune) int {
+	return func(g *gram.Grammar, entry int, input []rune) int {
+		r := refpeg.Run(g, entry, input, 50000)
+		if r.Budget {
+			return -1
+		}
+		return f(&r, input)
+	}
+}
+
+func b2i(b bool) int {
+	if b {
+		return 1
+	}
+	return 0
+}
+
 func init() {
 	// ------------------------------------------------------------------ C02
 	registerLab(&LabProp{
@@ -217,7 +235,10 @@ func init() {
 		Chunks:   func(c *drv.Ctx) int { return c.Pick(1, 8) },
 		Opts: func(c *drv.Ctx) lab.CollectOpts {
 			return lab.CollectOpts{N: c.Pick(100, 300), Profiles: []string{"backtracky", "plain", "backtracky", "deep", "liney"},
-				Inputs: c.Pick(24, 40), Hostile: true}
+				Inputs: c.Pick(24, 40), Hostile: true,
+				Score: scoreBy(func(r *refpeg.Result, in []rune) int {
+					return b2i(r.OK)*2 + b2i(r.OK && r.Stats.DiscardedTokens > 0)*2 + b2i(r.OK && r.Stats.MultiByteConsumed)
+				})}
 		},
 		Modes: func(c *drv.Ctx, pt *Point, v lab.Variant) []proto.Mode {
 			if !pt.Ref.OK {
@@ -276,8 +297,15 @@ func init() {
 		Variants: []lab.Variant{lab.V0},
 		Chunks:   func(c *drv.Ctx) int { return c.Pick(1, 8) },
 		Opts: func(c *drv.Ctx) lab.CollectOpts {
-			return lab.CollectOpts{N: c.Pick(100, 300), Profiles: []string{"backtracky", "deep", "backtracky", "plain", "liney"},
-				Inputs: c.Pick(24, 40), Hostile: true}
+			return lab.CollectOpts{N: c.Pick(100, 300), Profiles: []string{"actiony", "backtracky", "actiony", "deep", "actiony"},
+				Inputs: c.Pick(24, 40), Hostile: true,
+				Score: scoreBy(func(r *refpeg.Result, in []rune) int {
+					if !r.OK {
+						return 0
+					}
+					n := len(refpeg.ExecTrace(r.Root, in))
+					return 1 + b2i(n >= 2)*2 + b2i(n >= 2 && r.Stats.DiscardedTokens > 0)*2 + b2i(len(r.XTrace) > n)
+				})}
 		},
 		SkipCase: func(cs *lab.Case) bool { return cs.G.Count(gram.KAct) == 0 },
 		Modes: func(c *drv.Ctx, pt *Point, v lab.Variant) []proto.Mode {
@@ -365,7 +393,14 @@ func init() {
 		Chunks:   func(c *drv.Ctx) int { return c.Pick(1, 8) },
 		Opts: func(c *drv.Ctx) lab.CollectOpts {
 			return lab.CollectOpts{N: c.Pick(100, 300), Profiles: []string{"deep", "deep", "backtracky", "liney", "plain"},
-				Inputs: c.Pick(24, 40), Hostile: true}
+				Inputs: c.Pick(24, 40), Hostile: true,
+				Score: scoreBy(func(r *refpeg.Result, in []rune) int {
+					if !r.OK || r.End == 0 {
+						return 0
+					}
+					d, eq, many, empty := treeShape(refpeg.Tree(r.Root), r.Root)
+					return 1 + b2i(d >= 3) + b2i(eq) + b2i(many) + b2i(empty)
+				})}
 		},
 		Modes: func(c *drv.Ctx, pt *Point, v lab.Variant) []proto.Mode {
 			if !pt.Ref.OK {
@@ -431,7 +466,10 @@ func init() {
 		Chunks:   func(c *drv.Ctx) int { return c.Pick(1, 8) },
 		Opts: func(c *drv.Ctx) lab.CollectOpts {
 			return lab.CollectOpts{N: c.Pick(80, 250), Profiles: []string{"backtracky", "backtracky", "plain", "deep", "switchy"},
-				Inputs: c.Pick(24, 40), Hostile: true}
+				Inputs: c.Pick(24, 40), Hostile: true,
+				Score: scoreBy(func(r *refpeg.Result, in []rune) int {
+					return b2i(r.Stats.Revisits > 0)*2 + b2i(r.Stats.RevisitSuccess > 0)*2 + b2i(r.Stats.RevisitInLookahead > 0) + b2i(!r.OK && r.ErrTok != nil)
+				})}
 		},
 		SkipCase: func(cs *lab.Case) bool { return cs.G.Count(gram.KState) > 0 },
 		Modes: func(c *drv.Ctx, pt *Point, v lab.Variant) []proto.Mode {
@@ -496,8 +534,15 @@ func init() {
 		Variants: c07Variants,
 		Chunks:   func(c *drv.Ctx) int { return c.Pick(1, 8) },
 		Opts: func(c *drv.Ctx) lab.CollectOpts {
-			return lab.CollectOpts{N: c.Pick(64, 200), Profiles: []string{"backtracky", "plain", "switchy", "deep", "liney"},
-				Inputs: c.Pick(24, 36), Hostile: true}
+			return lab.CollectOpts{N: c.Pick(64, 200), Profiles: []string{"actiony", "backtracky", "switchy", "actiony", "liney"},
+				Inputs: c.Pick(24, 36), Hostile: true,
+				Score: scoreBy(func(r *refpeg.Result, in []rune) int {
+					n := 0
+					if r.OK {
+						n = len(refpeg.ExecTrace(r.Root, in))
+					}
+					return b2i(len(r.XTrace) > 0) + b2i(len(r.XTrace) > n)*2 + b2i(!r.OK && r.Stats.RestoreAfterConsume > 0)
+				})}
 		},
 		Modes: func(c *drv.Ctx, pt *Point, v lab.Variant) []proto.Mode {
 			if v.NoAST && (pt.Ref.Budget || pt.Ref.Stats.Steps > memoFreeBudget(c)) {
@@ -570,8 +615,18 @@ func init() {
 		Variants: []lab.Variant{lab.V0},
 		Chunks:   func(c *drv.Ctx) int { return c.Pick(1, 8) },
 		Opts: func(c *drv.Ctx) lab.CollectOpts {
-			return lab.CollectOpts{N: c.Pick(100, 300), Profiles: []string{"liney", "liney", "plain", "backtracky", "deep"},
-				Inputs: c.Pick(28, 40), Hostile: true}
+			return lab.CollectOpts{N: c.Pick(100, 300), Profiles: []string{"erry", "liney", "erry", "backtracky", "deep"},
+				Inputs: c.Pick(28, 40), Hostile: true,
+				Score: scoreBy(func(r *refpeg.Result, in []rune) int {
+					if r.OK {
+						return 0
+					}
+					s := 1
+					if r.ErrTok != nil {
+						s += 3 + b2i(strings.ContainsRune(string(in[r.ErrTok.B:r.ErrTok.E]), '\n')) + b2i(r.ErrTok.B > 0)
+					}
+					return s
+				})}
 		},
 		Modes: func(c *drv.Ctx, pt *Point, v lab.Variant) []proto.Mode {
 			return []proto.Mode{memoMode, prettyMode}
@@ -652,6 +707,8 @@ func init() {
 					switch {
 					case o.Panic != "":
 						what = fmt.Sprintf("parser generated with %q (%s) panicked: %s", v.Flags(), modeKey(m), o.Panic)
+					case o.OK && o.NoAST:
+						// a parser without AST records no tokens
 					case o.OK:
 						what = checkTokenShape(o.Tokens, n, pt.Case.G.Rules[pt.Entry].Name)
 						if what == "" && v.Name == "v0" && pt.Ref.OK && !pt.Ref.Budget && !sameToks(o.Tokens, refpeg.Tokens(pt.Ref.Root)) {
